@@ -21,3 +21,36 @@ CHECKS["C16"] = dict(technique="Coq proof (status stickiness, failing call frame
     text="exn_reaches_emit (a normal return implies no user function raised anywhere in the cascade), failing_call_changes_nothing, later_as_if_not_offered, cb_never_for_failed / failed_stays_unfired (in directly connected pipelines an emit that raises leaves the failed element's counters >= 1 without scheduling its callback, and no later emit schedules it) for all pipelines, inputs and fault choices (user functions are arbitrary partial functions).",
     note=NOTE_SYNC + " Fault choices are realised in the correspondence by value-triggered failing symbols (FFailIn etc.). The asynchronous carrier (awaitable of emit / sync()) is exercised only through partition in the C01 family; blocking emit across threads is trusted.",
     design_ref="DESIGN.md 5 C16")
+NOTE_ASYNC = ("Trusted: Coq kernel + vm_compute; hand-written Gallina models of the asynchronous nodes (coq/theories/Async: buffer, delay, "
+              "rate_limit, timed_window(_unique), partition with timeout, latest, zip, map_async, plain) where one model step = what the real "
+              "coroutines do between two quiescent points of the event loop; tied to /repo by running the REAL nodes on a stepped "
+              "virtual-time asyncio loop (harness/vloop.py: select never blocks, timers fire in due order, busy-waits detected) with "
+              "harness-resolved consumer futures and comparing deliveries, completed emits, counters and callback log after every action inside "
+              "Coq; plus model-free oracles on single nodes and on random multi-node chains. Not modelled: the order of callbacks inside one loop "
+              "iteration, real threads and wall-clock drift; tornado/asyncio themselves are trusted.")
+CHECKS["C02"] = dict(technique="Coq proof (invariants over all schedules, per asynchronous node + composition lemma) + differential correspondence on a stepped virtual loop + sequence oracle on nodes and chains",
+    text="For every schedule (action list) each lossless asynchronous node delivers, in order and exactly once, a prefix of what it received, and everything once drained: buffer_fifo, delay_fifo, rl_fifo, map_async_order (whatever the completion order), tw_conserve, partition_conserve, zip_pairs; chain_prefix/chain_complete compose stages.",
+    note=NOTE_ASYNC + " zip_pairs carries the hypothesis that emits use input 0 or 1 (zip_pairs_partial); pipeline-level statement for DAGs of asynchronous nodes is by the composition lemma plus the chain oracle, not a single end-to-end theorem. Native coroutines and tornado futures as consumers are both exercised by the demo scripts in findings/, the correspondence uses asyncio futures.",
+    design_ref="DESIGN.md 5 C02")
+CHECKS["C03"] = dict(technique="Coq proof (reachable-state invariants: bounds, no-lost-wakeup, done-set) + differential correspondence + bound/deadlock oracle",
+    text="buffer_bound (queue <= n, blocked put only when full and busy), buffer_no_lost_wakeup and buffer_done (every emit completed or blocked, none twice), map_async_queue_bound and map_async_bound_p1 with map_async_bound_refuted (p+1 tasks: known finding), zip_waiters_released, tw_waiting/tw_done, plain_emit_waits (no buffering node: emit completes only at the consumer's completion), for all schedules.",
+    note=NOTE_ASYNC + " Known findings: map_async runs parallelism+1 tasks (kept by the test-suite); zip over-wakes with several un-awaited producers per input. Blocking emit from another thread (sync()) is trusted, only its decision logic is exercised by the synchronous family.",
+    design_ref="DESIGN.md 5 C03")
+CHECKS["C04"] = dict(technique="Coq proof (count = holders invariant + callback-only-at-zero inversion, all schedules, fresh ids) + differential correspondence + provenance oracle",
+    text="X_cb_not_early for buffer, delay, latest, rate_limit, timed_window(_unique), partition(timeout), map_async: at every quiescent point of every schedule, a counter whose callback has been scheduled is held nowhere in the node nor by its unfinished consumer; zip_cb_early_refuted / plain_cb_early_refuted are the faithful models of the known generic early release of non-waiting nodes.",
+    note=NOTE_ASYNC + " Known findings: references are released when downstream.update() returns, so with only non-waiting nodes before an asynchronous sink the callback is early; flatten attaches metadata to the last piece only. 'Never for an element whose processing raised' is C16 (synchronous) plus the map_async fix; dask scatter/gather are under C20.",
+    design_ref="DESIGN.md 5 C04")
+CHECKS["C08"] = dict(technique="Coq proof (invariants over all schedules incl. tick-by-tick time) + differential correspondence + deadline/size oracle",
+    text="tw_conserve, tw_unique_keys, tw_deadline (unless blocked by its consumer the window flushes within one interval), partition_size, partition_conserve, partition_timer_inv_gen (armed timers = keys with non-empty buffer, each once, due within the timeout: a size flush cancels the timer, no spurious or empty partition), partition_buf_bound.",
+    note=NOTE_ASYNC + " Keyed partitions with a timeout are exercised by the oracle only when two timers could fall on the same instant (heap order artefact). The deadline under backpressure is checked by the oracle (blocked time measured on the trace), the theorem states the unblocked bound.",
+    design_ref="DESIGN.md 5 C08")
+CHECKS["C13"] = dict(technique="Coq proof (slot-reservation invariant over all arrival patterns) + differential correspondence + spacing oracle",
+    text="rl_spacing (consecutive deliveries differ by >= interval), rl_fifo, rl_idle_no_delay, rl_done_sync, rl_sleepers_spaced; delay_fifo, delay_done, delay_times_sorted, delay_no_stall; for all schedules incl. bursts, idle gaps and producers that do not await.",
+    note=NOTE_ASYNC,
+    design_ref="DESIGN.md 5 C13")
+CHECKS["C14"] = dict(technique="Coq proof (invariant over all schedules) + differential correspondence + subsequence oracle incl. same-iteration bursts",
+    text="latest_subseq (order-preserving embedding: nothing twice), latest_final (once the consumer is free the newest element has been delivered), latest_done, for all interleavings of arrivals and consumer completions.",
+    note=NOTE_ASYNC + " Several arrivals inside ONE loop iteration (bursts) are not a model action; they are covered by the oracle on the real code only.",
+    design_ref="DESIGN.md 5 C14")
+CHECKS["C05"]["text"] += " Asynchronous nodes: X_balance (count = holders at every quiescent point of every schedule) for buffer, delay, latest, rate_limit, timed_window, partition(timeout), map_async, zip (Props/C05A.v)."
+CHECKS["C05"]["note"] += " Known finding: latest keeps its slot referenced after delivery (required by test_latest_ref_counts)."
